@@ -70,7 +70,7 @@ P = {
 # as-built additions (rounds 8-15 of seeded changes; DESIGN.md section 8)
 ADD = {
  "C01": " Plus, per table: explicit sweep programs (every size of every variable-size entry over a contiguous range, continuation / identical / overlapping / descending argument chains, strings with blank / NUL heads and tails, foreign handles, setters overwritten with other values), a byte-sum sweep (one argument per entry kind through all 256 low-byte values), every argument all-zero / all-ones beside ordinary neighbours, the value sweep (every numeric or byte-array argument of every entry kind, shape and constructor through util::value_set x the enumerated arguments; argument pairs equal / adjacent / doubled and over a 12-value special set; argument = entry position / table length / entry size / previous argument +-1; one special value in three entries), and a second DFS over one operation per kind to depth 4..16.",
- "C02": " The sweep programs, byte-sum sweep, value sweep and kind-level DFS of C01 are judged here too.",
+ "C02": " The sweep programs (incl. RQSC vendor identifier blobs of every length 0..40, also shorter than the 12 bytes of the fixed identifier fields), byte-sum sweep, value sweep and kind-level DFS of C01 are judged here too.",
  "C03": " The sweep programs, byte-sum sweep, value sweep and kind-level DFS of C01 are judged here too.",
  "C04": " The entry layer also uses all-arguments-equal, lower-case-letter and blank fills; the stand-alone structures (PCI-config GAS, typed GenericAddress, HEST error status block and data entry) are compared with their specification layouts; the sweep programs and the value sweep of C01 are judged here too.",
  "C05": " The sweep programs of C01 (sizes, strings, overwritten next_level, foreign parent) and its value sweep are judged here too.",
